@@ -2094,6 +2094,8 @@ def preprocess_args(
 
             # We union all the kwargs that may be provided by any union member, so that
             # we give an error if
+            # Whether a previous union member had only known keys.
+            seen_closed_member = False
             for subval in flatten_values(arg.value, unwrap_annotated=True):
                 result = _preprocess_kwargs_no_mvv(subval, ctx)
                 if result is None:
@@ -2101,6 +2103,12 @@ def preprocess_args(
                 new_items, new_value = result
                 if new_value is not None:
                     extra_values.append(new_value)
+                else:
+                    # All keys of this member are known: a key that it does not
+                    # provide may be missing at runtime.
+                    for key, (_, old_value) in items.items():
+                        if key not in new_items:
+                            items[key] = False, old_value
                 for key, (required, value) in new_items.items():
                     if key in items:
                         old_required, old_value = items[key]
@@ -2110,7 +2118,11 @@ def preprocess_args(
                             old_value, value
                         )
                     else:
-                        items[key] = required, value
+                        # ... and so may a key that an earlier member with only
+                        # known keys did not provide.
+                        items[key] = required and not seen_closed_member, value
+                if new_value is None:
+                    seen_closed_member = True
             for key, (required, value) in items.items():
                 if required:
                     processed_args.append((Composite(value), key))
